@@ -51,8 +51,17 @@ def policy_answer(log, i, t):
     return ("raised",) if ans is None else ("stop",)
 
 
-def project(log, desc, layer="L0"):
+def project(log, desc, layer="L0", wake=False):
+    """wake=False: actions of Model/Retry.lean; wake=True: the same execution projected onto Model/WakeProto.lean (items =
+    jobs waiting for the submit thread, due = their `when`)"""
     X, E, worker = ctor_objects(log, layer)
+    wout = ["S replay wake"]
+    now_t = 0
+    fut_of_d = {}
+    sleep_of_d = {}
+    wexpect_scan = True
+    wparked = False
+    cancel_dcancel = {}
     dcancel_ret, opened = {}, {}
     for i, e in enumerate(log):
         t, k = e[0], e[1]
@@ -78,6 +87,24 @@ def project(log, desc, layer="L0"):
         t, k = e[0], e[1]
         if k in ("idle_jump", "tick"):
             out.append("A tick %s" % ticks(e[2]))
+            now_t = int(ticks(e[2]))
+            wout.append("A tick %s" % ticks(e[2]))
+        elif k == "set" and e[2] == E:
+            wout.append("A setE")
+        elif k in ("tstart",) and t == worker:
+            wexpect_scan = True
+        elif k == "wait" and e[2] == E and t == worker:
+            wout.append("A waitE %s" % ticks(e[3]))
+            wparked = not e[4]
+        elif k == "woke" and e[2] == E and t == worker:
+            wout.append("A wake")
+            wparked = False
+        elif k == "clear" and e[2] == E and t == worker:
+            if wparked:
+                wout.append("A wake")
+                wparked = False
+            wout.append("A clearE")
+            wexpect_scan = True
         elif k == "call" and e[2] == "submit":
             cur_submit[t] = {"key": e[3], "f": None, "flock": None, "depth": len(stk.get(t) or [])}
         elif k in ("ret", "raise") and e[2] == "submit":
@@ -103,16 +130,21 @@ def project(log, desc, layer="L0"):
                     if cur_submit[t]["flock"]:
                         flock[cur_submit[t]["flock"]] = f
                     out.append("A submit %d" % f)
+                    wout.append("A add %d %d" % (f, now_t))
                 elif c is not None and c["kind"] == "cancel":
                     if not c["scanned"]:
                         c["scanned"] = True
                         out.append("A cancelScan %d" % c["f"])
+                        # a job without delegate is popped by the scan: the cancel then issues no delegate.cancel()
+                        c["wake_remove_at"] = len(wout)
+                        wout.append(None)
                 elif c is not None and c["kind"] == "cb":
                     if c["state"] == "cancelled":
                         out.append("A cbCancelled %d" % c["d"])
                         c["state"] = "done"
                     elif c["state"] == "retry":
                         out.append("A cbRetry %d" % c["d"])
+                        wout.append("A add %d %d" % (fut_of_d.get(c["d"], 0), now_t + int(sleep_of_d.get(c["d"], 0))))
                         c["state"] = "done"
                 elif t == worker and wF is not None:
                     eff = 0
@@ -126,6 +158,17 @@ def project(log, desc, layer="L0"):
                         if x[1] == "rel" and x[2] == wF[1]:
                             break
                     out.append("A submitNow %d %d" % (wF[0], eff))
+                    wout.append("A rescan")
+                    wout.append("A remove %d" % wF[0])
+                    wexpect_scan = True
+                elif t == worker and c is None and wF is None:
+                    if wexpect_scan:
+                        wout.append("A scan")
+                        wexpect_scan = False
+                    else:
+                        # second section of the iteration without the future's lock: the discard of a stopped job
+                        wout.append("A rescan")
+                        wexpect_scan = True
             elif L in flock and t == worker and c is None:
                 wF = (flock[L], L)
         elif k == "rel":
@@ -141,6 +184,8 @@ def project(log, desc, layer="L0"):
                 out.append("A cancelEnd %d" % c["f"])
         elif k == "dsubmit" and t == worker:
             did[e[3]] = nd
+            if wF is not None:
+                fut_of_d[nd] = wF[0]
             nd += 1
         elif k == "fset>" and e[2] in fid:
             c = top(t)
@@ -154,6 +199,7 @@ def project(log, desc, layer="L0"):
                 pend[t] = (fid[e[2]], acts)
             elif t == worker and c is None:
                 pend[t] = (fid[e[2]], ["A discard %d" % fid[e[2]]])
+                wout.append("A remove %d" % fid[e[2]])
         elif k in ("fset<", "fset!") and t in pend:
             out.extend(pend.pop(t)[1])
         elif k == "dcomplete" and e[2] in did:
@@ -166,6 +212,7 @@ def project(log, desc, layer="L0"):
             r = dcancel_ret.get(i)
             c = top(t)
             if c is not None and c["kind"] == "cancel":
+                c["had_dcancel"] = True
                 out.append("A cancelDel %d %d" % (c["f"], 1 if r else 0))
             elif r:
                 out.append("A ddone %d 1" % did[e[2]])
@@ -181,6 +228,7 @@ def project(log, desc, layer="L0"):
             if c is not None and c["kind"] == "cb" and c["state"] == "policy":
                 a = policy_answer(log, i, t)
                 if a[0] == "retry":
+                    sleep_of_d[c["d"]] = ticks(a[1])
                     out.append("A cbPolicy %d retry %s" % (c["d"], ticks(a[1])))
                     c["state"] = "retry"
                 else:
@@ -192,7 +240,11 @@ def project(log, desc, layer="L0"):
             c = top(t)
             if c is not None and c["kind"] == "cancel" and c["nm"] == e[2]:
                 stk[t].pop()
+                if c.get("wake_remove_at") is not None and not c.get("had_dcancel"):
+                    wout[c["wake_remove_at"]] = "A remove %d" % c["f"]
                 if c["scanned"] and not c.get("ended"):
                     out.append("A cancelEnd %d" % c["f"])
     out.append(".")
+    if wake:
+        return [x for x in wout if x is not None] + ["."]
     return out
